@@ -65,7 +65,11 @@ def generate(tape, tier="quick"):
     if tier == "thorough" and tape.chance(1, 400):
         n_events = tape.choice([500, 2000, 5000])
     events = gen_events(tape, n_cons, n_events)
-    return {"engine": "E3", "src": {"units": ""}, "consumers": cons, "events": events,
+    src = {"units": ""}
+    if tape.chance(1, 5):
+        from ..grids import gen_structured
+        src["grid"] = gen_structured(tape, max_dim=2, max_len=3)
+    return {"engine": "E3", "src": src, "consumers": cons, "events": events,
             "exchange_order": tape.shuffle(list(range(n_cons)))}
 
 
